@@ -199,6 +199,24 @@ pub fn run(ctx: &Ctx) -> i32 {
             ] {
                 replay_script(&[], &s, &segs, &caps, 3, w);
             }
+            // the byte at every phase of a packing group, the run ending with an explicit unlatch
+            // and ending with the symbol (flag false: only capacities it fills exactly are admitted)
+            let f = if mode == Mode::Text { b'a' } else { b'A' };
+            for flag in [true, false] {
+                for pre in 0..=4usize {
+                    for post in 0..=2usize {
+                        let mut s = vec![f; pre];
+                        s.push(b);
+                        s.extend(std::iter::repeat(f).take(post));
+                        let n = s.len();
+                        replay_script(&[], &s, &[Seg { mode, len: n, flag }], &caps, 3, w);
+                        // ... and after an ASCII character, so that the run does not start the stream
+                        let mut s2 = vec![b'1'];
+                        s2.extend(&s);
+                        replay_script(&[], &s2, &[Seg { mode: Mode::Ascii, len: 1, flag: true }, Seg { mode, len: n, flag }], &caps, 3, w);
+                    }
+                }
+            }
         }
     });
     // 2. shifted tails: a filler run in each mode parks the position at every residue, then every
@@ -287,7 +305,7 @@ pub fn run(ctx: &Ctx) -> i32 {
         "distinct_nontrivial": ctx.counter("nontrivial"),
         "rule": "states = (string, script prefix) nodes of the script tree of the reference encoder R6, transitions = script extensions (mode x run length x termination form); every complete script that R6 can legally realise \
 (strict tier: forms spelled out by ISO/IEC 16022) is materialised for up to 5 admissible real symbol capacities, decoded by R5 (model self-consistency, engine error otherwise) and replayed against data::decode_data and decode_str. \
-Programs: all strings over an 8-letter class alphabet up to the tier's length with all scripts (longer strings with a bounded number of latches); every byte value in runs of every mode that can carry it; all strings over a 7-letter alphabet with high bytes (0x80, 0x9F, 0xE1, 0xFF, RS, A, a) up to length 4 (5); a filler run of 1..kmax characters in each mode (with and without unlatch) followed by every tail of length <= 2 (3) with all scripts; \
+Programs: all strings over an 8-letter class alphabet up to the tier's length with all scripts (longer strings with a bounded number of latches); every byte value in runs of every mode that can carry it, at every phase of a packing group (0..4 fillers before, 0..2 after), the run ending with an explicit unlatch and ending with the symbol, at the start of the stream and after an ASCII character; all strings over a 7-letter alphabet with high bytes (0x80, 0x9F, 0xE1, 0xFF, RS, A, a) up to length 4 (5); a filler run of 1..kmax characters in each mode (with and without unlatch) followed by every tail of length <= 2 (3) with all scripts; \
 Base256 fields of length 1..1555 (both sides of every multiple of 250) with explicit and with zero length; pads from positions 1..4 to the end of every capacity; macro 05/06 and FNC1 headers. non-trivial = materialised script with a non-ASCII run.",
         "exhaustive": true,
         "scripts_materialised": ctx.counter("scripts_materialised"),
